@@ -11,7 +11,7 @@ from .. import estimators as E, gen
 RULE = ('CONVERT: symmetric matrices B diag(w) B^T of size 1..8 with Hypothesis-drawn spectra (full rank, exact zeros, '
         'diagonal, slightly negative within/outside tol, clearly indefinite, up to 14 decades) x tol in {None, 0, '
         'relative 1e-12..1e-2} x asymmetric perturbations; the clause asserted is chosen from the COMPUTED spectrum. '
-        'PRIOR: LSML(tol=1e10) and ITML(inactive bounds) return their prior, MMC(diagonal=True, max_iter=0) the '
+        'PRIOR: LSML(tol=1e300) and ITML(inactive bounds) return their prior, MMC(diagonal=True, max_iter=0) the '
         'diagonal of its init - compared with the harness construction of identity / covariance of the distinct '
         'points (pseudo-inverse) / make_spd_matrix(seed) / given array; bad arrays (asymmetric, wrong shape, '
         'indefinite, singular for strict learners) must raise ValueError. INIT: LMNN(max_iter=0) and NCA/MLKR with '
@@ -122,6 +122,7 @@ PRIOR_LEARNERS = ['LSML', 'ITML', 'MMC', 'SDML']
 def prior_case(draw):
   name = draw(st.sampled_from(PRIOR_LEARNERS))
   desc = draw(gen.dataset_desc(dmax=6))
+  desc['cond'] = draw(st.sampled_from([1, 10, 100, 1000, 10000]))     # covariance spectra over up to 8 decades
   opt = draw(st.sampled_from(['identity', 'covariance', 'random', 'array', 'array-singular', 'array-asym',
                               'array-shape', 'array-indefinite', 'covariance-singular', 'bad-string']))
   return dict(kind='prior', est=name, desc=desc, opt=opt, seed=draw(st.integers(0, 10 ** 6)),
@@ -180,7 +181,7 @@ def check_prior(case, stats):
   value = {'bad-string': 'not-an-option', 'covariance-singular': 'covariance'}.get(opt, arr if arr is not None else opt)
   base = dict(preprocessor=None)
   if name == 'LSML':
-    params = dict(prior=value, tol=1e10, max_iter=5, random_state=case['seed'])
+    params = dict(prior=value, tol=1e300, max_iter=5, random_state=case['seed'])   # any gradient norm is below tol: no update
     fargs = (T,)
   elif name == 'ITML':
     params = dict(prior=value, max_iter=1, random_state=case['seed'])
